@@ -24,6 +24,8 @@ STATES = {
                      ("store", Q, "B", None), QMETA),
     "p=L,q=L": (("store", "p", "L", None), ("store", Q, "L", None)),
     "A-unreferenced": (("store_nopid", "A"), ("store", Q, "B", None), QMETA),
+    "p=N": (("tag", "p", "N"), ("store", Q, "B", None), QMETA),  # p is bound to a cid whose object is missing
+    "p=N,q=N": (("tag", "p", "N"), ("tag", Q, "N")),
     "p=A,longq=A": (("store", "p", "A", None), ("store", LONGQ, "A", None)),
     "longq=A,p=A": (("store", LONGQ, "A", None), ("store", "p", "A", None)),
     "p=A,5 long pids=A": (("store", LQ[0], "A", None), ("store", "p", "A", None)) + tuple(("store", x, "A", None) for x in LQ[1:]),
@@ -47,6 +49,8 @@ CASES = [
     (("delete", "p"), "p=A", "delete sole reference"),
     (("delete", "p"), "p=A,q=A", "delete shared reference"),
     (("delete", "p"), "p=A+docs,q=B", "delete sole reference with metadata"),
+    (("delete", "p"), "p=N", "delete a pid whose object is missing"),
+    (("delete", "p"), "p=N,q=N", "delete a pid whose object is missing, cid list shared"),
     (("store_meta", "p", None, "v1"), "q=B", "store metadata, new document"),
     (("store_meta", "p", None, "v2"), "p=A+docs,q=B", "store metadata, overwrite (multi-buffer)"),
     (("delete_meta", "p", "f2"), "p=A+docs,q=B", "delete one metadata document"),
